@@ -27,6 +27,10 @@ func init() {
 			ruleIOErrorDiscipline(c, "C01.R6")
 			ruleMetaSlot(c, "C01.R7")
 			ruleChecksumAfterMutation(c, "C01.R8", 5)
+			// crash atomicity needs copy-on-write: until the new meta is durable, nothing the durable meta references may be overwritten,
+			// so the pages tx.write puts on disk must come from the allocator only (re-evaluation of C06.R1/R2)
+			c06R2(c, "C01.R9")
+			c06R1(c, "C01.R10")
 		},
 		Platform: func(c *Ctx) {
 			ruleFdatasyncSibling(c, "C01.R3")
